@@ -179,4 +179,63 @@ theorem flatEntry_eq_digits (X Y : Nat) (hX : X < prodL dims) (hY : Y < prodL di
   · rw [if_neg hc, if_neg hc]; rfl
 
 end
+
+/-! ### the specification on flat indices -/
+
+theorem all_congr' {α : Type} (l : List α) (f g : α → Bool) (h : ∀ x ∈ l, f x = g x) : l.all f = l.all g := by
+  induction l with
+  | nil => rfl
+  | cons a as ih =>
+    simp only [List.all_cons, h a (by simp), ih (fun x hx => h x (by simp [hx]))]
+
+/-- the digit-tuple specification read at the digits of flat indices is the flat specification -/
+theorem specEntry_digits (dims targets : List Nat) (hr : ∀ t ∈ targets, t < dims.length) (X Y : Nat) :
+    (specEntry dims.length targets (digits dims X) (digits dims Y)).map
+        (fun p => (undigits (targets.map (fun t => dims.getD t 0)) p.1,
+                   undigits (targets.map (fun t => dims.getD t 0)) p.2))
+      = specFlat dims targets X Y := by
+  unfold specEntry specFlat
+  have hall : (List.range dims.length).all
+        (fun i => targets.contains i || (digits dims X).getD i 0 == (digits dims Y).getD i 0)
+      = (List.range dims.length).all
+        (fun i => targets.contains i || digitAt dims X i == digitAt dims Y i) := by
+    apply all_congr'
+    intro i hi
+    have hi' := List.mem_range.mp hi
+    rw [digits_getD dims X i hi', digits_getD dims Y i hi']
+  have hmap : ∀ Z, targets.map (fun t => (digits dims Z).getD t 0) = targets.map (digitAt dims Z) := by
+    intro Z
+    apply List.map_congr_left
+    intro t ht
+    exact digits_getD dims Z t (hr t ht)
+  simp only [hall, hmap]
+  split <;> rfl
+
+/-- the delta condition of `specFlat` as a proposition -/
+theorem specFlat_cond_iff (dims targets : List Nat) (X Y : Nat) :
+    ((List.range dims.length).all
+        (fun i => targets.contains i || digitAt dims X i == digitAt dims Y i) = true)
+      ↔ (∀ i, i < dims.length → i ∉ targets → digitAt dims X i = digitAt dims Y i) := by
+  simp only [List.all_eq_true, List.mem_range, Bool.or_eq_true, List.contains_eq_mem, decide_eq_true_eq,
+    beq_iff_eq]
+  constructor
+  · intro h i hi hni
+    rcases h i hi with h' | h'
+    · exact absurd h' hni
+    · exact h'
+  · intro h i hi
+    by_cases hm : i ∈ targets
+    · exact Or.inl hm
+    · exact Or.inr (h i hi hm)
+
+theorem undigits_targets_lt (dims targets : List Nat) (hpos : ∀ d ∈ dims, 0 < d)
+    (hr : ∀ t ∈ targets, t < dims.length) (Z : Nat) :
+    undigits (targets.map (fun t => dims.getD t 0)) (targets.map (digitAt dims Z))
+      < prodL (targets.map (fun t => dims.getD t 0)) := by
+  refine (digits_undigits _ _ (by simp) ?_).1
+  intro i h1 h2
+  have hi : i < targets.length := by simpa using h1
+  have := digitAt_lt dims Z targets[i] (hr _ (List.getElem_mem hi)) hpos
+  simpa using this
+
 end QipVerif.EmbedFlat
